@@ -118,8 +118,14 @@ def buffer_len_invariant(prog, N):
 
 # sinks whose safety rests on an internal (not option-derived) invariant the interval analysis cannot see; each maps
 # the sink to the option-derived fact that is still required, with the stated lemma
+def _is_len_minus_64(s):
+    ops = getattr(s, "ops", None)
+    return bool(ops) and ops[0][0] == "call" and ops[0][1].endswith("Vec::<T, A>::len") and ops[1] == ("const", 64)
+
+
 LEMMAS = {
-    ("<chunker::rabin::ChunkIter<R> as std::iter::Iterator>::next", "Overflow:Sub", 2):
+    # (function, sink kind, shape predicate on the operands) - matched by shape, not by position
+    ("<chunker::rabin::ChunkIter<R> as std::iter::Iterator>::next", "Overflow:Sub", _is_len_minus_64):
         ("vec.len() >= self.min_size at the window slice: vec holds the carried bytes plus `size` freshly read bytes and the early return for size < min_size - carried has been passed",
          ("ChunkIter", "min_size"), 64),
 }
@@ -138,7 +144,7 @@ def run_rule(ctx, rep, rule, select):
                 continue
             n_t += 1
             ordn[kind] = ordn.get(kind, 0) + 1
-            lem = LEMMAS.get((fn_key(b), kind, ordn[kind]))
+            lem = next((v for (f, k, pred), v in LEMMAS.items() if f == fn_key(b) and k == kind and pred(s)), None)
             if lem and not s.ok:
                 text, fld, need = lem
                 inv = field_inv.get(fld)
